@@ -41,6 +41,7 @@ package api
 
 //@ func Entry(resource, opts) (e, b)
 //@   props C01, C06, C16
+//@   requires[options-not-nil] forall k Int :: 0 <= k && k < len(opts) ==> opts[k] != nil
 //@   requires entryOptsPool != nil && pooltype(entryOptsPool, "*api.EntryOptions") && (globalSlotChain != nil ==> globalSlotChain.ctxPool != nil)
 //@   panics never
 //@   let a0 = gPassN
